@@ -256,6 +256,10 @@ class GraphParser:
 
     REC_COMMENT = re.compile('#.*$')
 
+    # Detect parentheses that do not enclose an operand of & or |, e.g.
+    # "a(b|c)", "(a|b)c", "()" (in a line stripped of whitespace).
+    REC_BAD_PARENTHESES = re.compile(r'[^&|(>]\(|\)[^&|)=]|\(\)')
+
     # Detect presence of expansion parameters in a graph line.
     REC_PARAMS = re.compile(_RE_PARAMS)
 
@@ -451,6 +455,8 @@ class GraphParser:
                 raise GraphParseError(
                     "The graph OR operator is "
                     f"'{self.__class__.OP_OR}': {line}")
+            if self.__class__.REC_BAD_PARENTHESES.search(line):
+                raise GraphParseError(f"Misplaced parentheses: {line}")
             # Check node syntax. First drop all non-node characters.
             node_str = line
             for spec in [
